@@ -553,3 +553,138 @@ def make_adapters_from_one_specification(c):
     c.ensures(without_file_prefix_one_adapter_from_the_specification_itself=f"implies(not {FILE}, yields_exactly_one(result))")
     c.mutant("anchoring_suffix = '$'", "anchoring_suffix = ''")
     c.mutant("parameters.update(parse_search_parameters(parameters_spec))", "parse_search_parameters(parameters_spec).update(parameters)")
+
+
+@contract("parser.py", "AdapterSpecification._parse_restrictions", props=["C18"])
+def parse_restrictions(c):
+    """^ anchors a 5' adapter, $ anchors a 3' adapter, a leading / trailing X (any case, any number) forbids internal matches;
+    more than one placement restriction is an error."""
+    c.types(spec=Str)
+    c.returns(TupT(OptT(Str), OptT(Str), Str))
+    c.spec(cls_spec)
+    S = "old(spec)"
+    CARET = f"{S}.startswith('^')"
+    LEADX = f"{S}.upper().startswith('X')"
+    AFTER_CARET_X = f"({CARET} and {S}[1:].upper().startswith('X'))"
+    FRONT = f"({CARET} or {LEADX})"
+    # what is left after the front marker
+    REST = f"({S}[1:] if {CARET} else {S}.lstrip('xX'))"
+    DOLLAR = f"{REST}.endswith('$')"
+    TRAILX = f"{REST}.upper().endswith('X')"
+    DOLLAR_X = f"({DOLLAR} and {REST}[:-1].upper().endswith('X'))"
+    BACK = f"({DOLLAR} or {TRAILX})"
+    c.raises("ValueError", when=f"{AFTER_CARET_X} or {DOLLAR_X} or ({FRONT} and {BACK})")
+    c.ensures(
+        caret_anchors_the_5prime_end=f"opt_is(result[0], 'anchored') == {CARET}",
+        leading_x_forbids_internal_matches=f"opt_is(result[0], 'noninternal') == ({LEADX} and not {CARET})",
+        no_marker_no_front_restriction=f"is_none(result[0]) == (not {FRONT})",
+        dollar_anchors_the_3prime_end=f"opt_is(result[1], 'anchored') == {DOLLAR}",
+        trailing_x_forbids_internal_matches=f"opt_is(result[1], 'noninternal') == ({TRAILX} and not {DOLLAR})",
+        no_marker_no_back_restriction=f"is_none(result[1]) == (not {BACK})",
+        at_most_one_restriction="is_none(result[0]) or is_none(result[1])",
+        restriction_domain="(is_none(result[0]) or opt_is(result[0], 'anchored') or opt_is(result[0], 'noninternal')) and "
+                           "(is_none(result[1]) or opt_is(result[1], 'anchored') or opt_is(result[1], 'noninternal'))",
+        the_sequence_is_what_is_left_without_the_markers=
+        f"seq_eq(result[2], {S}[1:] if {CARET} else ({S}.lstrip('xX') if {LEADX} else ({S}[:-1] if {DOLLAR} else ({S}.rstrip('xX') if {TRAILX} else {S}))))",
+    )
+    c.mutant("spec = spec[1:]", "spec = spec[2:]")
+    c.mutant("back_restriction = 'anchored'", "back_restriction = 'noninternal'")
+    c.mutant("n_placement_restrictions > 1", "n_placement_restrictions > 2")
+
+
+EXTRACT = {k: z3.Function(f"extract_name.{k}", AII, I, {"none": B, "name.arr": AII, "name.n": I, "rest.arr": AII, "rest.n": I}[k])
+           for k in ("none", "name.arr", "name.n", "rest.arr", "rest.n")}
+EXPAND = {k: z3.Function(f"expand_braces.{k}", AII, I, {"arr": AII, "n": I}[k]) for k in ("arr", "n")}
+
+
+@contract("parser.py", "AdapterSpecification._extract_name", props=[], name="AdapterSpecification._extract_name@abstract")
+def extract_name_abstract(c):
+    c.types(spec=Str)
+    c.returns(TupT(OptT(Str), Str))
+
+    def sp(cx):
+        def extracted(spec):
+            s = as_str(spec)
+            return TupV((Opt(EXTRACT["none"](s.arr, s.n), StrV(EXTRACT["name.arr"](s.arr, s.n), EXTRACT["name.n"](s.arr, s.n))),
+                         StrV(EXTRACT["rest.arr"](s.arr, s.n), EXTRACT["rest.n"](s.arr, s.n))))
+        cx.spec["extracted"] = extracted
+    c.spec(sp)
+    c.ensures(deterministic="is_none(result[0]) == is_none(extracted(spec)[0]) and "
+                            "implies(not is_none(result[0]), seq_eq(val(result[0]), val(extracted(spec)[0]))) and "
+                            "seq_eq(result[1], extracted(spec)[1]) and len(result[1]) >= 0")
+
+
+api.BY_NAME["AdapterSpecification._extract_name"] = extract_name_abstract
+
+
+@contract("parser.py", "expand_braces", props=[], name="expand_braces@abstract")
+def expand_braces_abstract(c):
+    c.types(sequence=Str)
+    c.returns(Str)
+
+    def sp(cx):
+        def expanded(spec):
+            s = as_str(spec)
+            return StrV(EXPAND["arr"](s.arr, s.n), EXPAND["n"](s.arr, s.n))
+        cx.spec["expanded"] = expanded
+    c.spec(sp)
+    c.raises("ValueError", when=None)
+    c.ensures(deterministic="seq_eq(result, expanded(sequence))")
+
+
+api.BY_NAME["expand_braces"] = expand_braces_abstract
+api.BY_NAME["AdapterSpecification._parse_restrictions"] = parse_restrictions
+
+
+@contract("parser.py", "AdapterSpecification.parse", props=["C18"])
+def parse_real(c):
+    """What the constructors rely on (assumed at their call sites through AdapterSpecification.parse@abstract) and the documented
+    invalid combinations: a 5' adapter takes no 3' restriction and vice versa, -b takes none, min_overlap is not for anchored
+    adapters (and is clipped to the sequence length), rightmost is for regular 5' adapters only."""
+    c.types(cls=api.ConstT(ClsV("AdapterSpecification")), spec=Str, adapter_type=Str)
+    c.spec(cls_spec)
+    c.spec(ctor_spec)
+    c.spec(file_spec)
+    c.raises("ValueError", when=None)
+    c.raises("KeyError", when=None)
+    c.ensures(
+        anywhere_has_no_restriction="implies(seq_eq(old(adapter_type), 'anywhere'), is_none(result.restriction))",
+        rightmost_only_regular_front="implies(result.rightmost, seq_eq(old(adapter_type), 'front') and is_none(result.restriction))",
+        restriction_domain="is_none(result.restriction) or opt_is(result.restriction, 'anchored') or opt_is(result.restriction, 'noninternal')",
+        type_is_kept="seq_eq(result.adapter_type, old(adapter_type)) and (seq_eq(old(adapter_type), 'front') or seq_eq(old(adapter_type), 'back') or seq_eq(old(adapter_type), 'anywhere'))",
+        min_overlap_not_for_anchored_and_clipped="implies(opt_is(result.restriction, 'anchored'), entry_absent(result.parameters, 'min_overlap')) and "
+                                                 "implies(not entry_absent(result.parameters, 'min_overlap'), entry_val(result.parameters, 'min_overlap') <= len(result.sequence))",
+        rightmost_is_not_a_constructor_parameter="entry_absent(result.parameters, 'rightmost')",
+    )
+    c.ghost("__assert__(implies(seq_eq(adapter_type, 'front'), is_none(back_restriction)) and implies(seq_eq(adapter_type, 'back'), is_none(front_restriction)), "
+            "'a_5prime_adapter_takes_no_3prime_restriction_and_vice_versa')", before="return cls(name, restriction, spec, parameters, adapter_type, rightmost)")
+    c.mutant("adapter_type == 'front' and back_restriction", "adapter_type == 'back' and back_restriction")
+    c.mutant("adapter_type == 'anywhere' and restriction is not None", "adapter_type == 'anywhere' and restriction is None")
+    c.mutant("parameters['min_overlap'] = len(spec)", "parameters['min_overlap'] = len(spec) + 1")
+
+
+@contract("adapters.py", "SingleAdapter.__init__", props=["C18", "C02"], name="SingleAdapter.__init__:parameters")
+def single_adapter_init(c):
+    """The first part of the constructor (up to the character check): the sequence is upper-cased with U read as T and I as N;
+    an error value of 1 or more is a number of errors and becomes a rate by dividing by the number of non-N bases; the minimum
+    overlap is clipped to the length."""
+    c.body_until = "iupac = frozenset('ABCDGHKMNRSTUVWXY')"
+    c.types(self=ObjT("SingleAdapter"), sequence=Str, max_errors=Real, min_overlap=Int, read_wildcards=Bool, adapter_wildcards=Bool,
+            name=OptT(Str), indels=Bool)
+    c.modifies = ["self"]
+    c.raises("ValueError", when="len(sequence) == 0")
+    c.requires(errors_not_negative="max_errors >= 0")
+    NONN = "(len(self.sequence) - self.sequence.count('N'))"
+    c.ensures(
+        sequence_is_upper_case_with_u_as_t_and_i_as_n=
+        "len(self.sequence) == len(sequence) and forall(t, 0, len(sequence), code(self.sequence, t) == "
+        "(84 if upper_code(code(sequence, t)) == 85 else (78 if upper_code(code(sequence, t)) == 73 else upper_code(code(sequence, t)))))",
+        a_value_of_1_or_more_is_divided_by_the_number_of_non_n_bases=
+        f"implies(max_errors >= 1 and {NONN} > 0, self.max_error_rate * {NONN} == max_errors)",
+        a_value_below_1_is_the_rate_itself="implies(max_errors < 1, self.max_error_rate == max_errors)",
+        min_overlap_clipped_to_the_length="self.min_overlap == (min_overlap if min_overlap <= len(sequence) else len(sequence))",
+        given_name_is_kept="implies(not is_none(name), seq_eq(val(self.name), val(name)))",
+    )
+    c.mutant("len(self.sequence) - self.sequence.count('N')", "len(self.sequence)")
+    c.mutant("max_errors >= 1", "max_errors > 1")
+    c.mutant("min(min_overlap, len(self.sequence))", "min_overlap")
